@@ -38,7 +38,7 @@ Definition policy_controller : controller pol := {|
   c_aux_info := fun p _ _ _ => (p, FOk 0%N);
   c_end_tag := fun p _ _ => (pol_bump p, policy_flags (p.(pl_counter) + p.(pl_seed) + 2));
   c_token := pol_token;
-  c_end := fun p => (p, OOk (match p.(pl_end_text) with [] => [] | x => [x] end));
+  c_end := fun p => (p, match p.(pl_end_text) with [] => [] | x => [x] end, None);
   c_should_emit := fun p => if p.(pl_remove) then negb ((p.(pl_counter) / 3) mod 3 =? 1) else true;
   c_bail_out := fun p _ => (p, match p.(pl_bail_text) with [] => [] | x => [x] end);
   c_mem_usage := fun _ => 0%N;
